@@ -111,6 +111,7 @@ func setupUniverse(timeT types.Type) {
 	}
 	generic1("old", func(tp *types.TypeParam) types.Type { return tp })
 	generic1("before", func(tp *types.TypeParam) types.Type { return tp })
+	generic1("prev", func(tp *types.TypeParam) types.Type { return tp })
 	generic1("fresh", func(tp *types.TypeParam) types.Type { return bt })
 	generic1("regionof", func(tp *types.TypeParam) types.Type { return mathintType })
 	generic1("offsetof", func(tp *types.TypeParam) types.Type { return it })
@@ -147,6 +148,9 @@ func setupUniverse(timeT types.Type) {
 	types.Universe.Insert(types.NewFunc(token.NoPos, nil, "implies__", types.NewSignatureType(nil, nil, nil, types.NewTuple(v("a", bt), v("b", bt)), types.NewTuple(v("", bt)), false)))
 	types.Universe.Insert(types.NewFunc(token.NoPos, nil, "isfinite", types.NewSignatureType(nil, nil, nil, types.NewTuple(v("x", types.Typ[types.Float64])), types.NewTuple(v("", bt)), false)))
 	for _, n := range []string{"lastSealAD", "lastSealPT", "lastSealKey", "lastOpenAD", "lastOpenNonce", "lastOpenCT", "lastOpenKey"} {
+		types.Universe.Insert(types.NewFunc(token.NoPos, nil, n, types.NewSignatureType(nil, nil, nil, nil, types.NewTuple(v("", types.NewSlice(types.Typ[types.Uint8]))), false)))
+	}
+	for _, n := range []string{"lastpkt", "lastsent"} {
 		types.Universe.Insert(types.NewFunc(token.NoPos, nil, n, types.NewSignatureType(nil, nil, nil, nil, types.NewTuple(v("", types.NewSlice(types.Typ[types.Uint8]))), false)))
 	}
 	for _, n := range []string{"sealed", "opened"} {
@@ -338,7 +342,7 @@ func (vc *VC) compileContract(fi *FuncInfo) {
 		all = append(all, con.Loops[o]...)
 	}
 	for _, c := range all {
-		if fi.Decl.Body == nil && (c.Kind == "invariant" || c.Kind == "decreases") {
+		if fi.Decl.Body == nil && (c.Kind == "invariant" || c.Kind == "decreases" || c.Kind == "iterensures") {
 			c.compiled = true
 			c.err = fmt.Errorf("%s: loop clause on a function without body", c.Line)
 		} else {
